@@ -430,13 +430,17 @@ def stored_names(stmt):
     return out
 
 
-def seq_env(stmts, upto=None, env=None):
+def seq_env(stmts, upto=None, env=None, keep=()):
     """symbolic environment name -> defining expression (already substituted) after executing `stmts` in order;
     names written inside compound statements become opaque.  Stops before statement `upto` if given."""
     env = dict(env or {})
     for s in stmts:
         if s is upto:
             break
+        if keep and stored_names(s) & set(keep) and not isinstance(s, (ast.For, ast.While, ast.If, ast.Try, ast.With)):
+            for n in stored_names(s):
+                env.pop(n, None)
+            continue
         if isinstance(s, ast.Assign) and len(s.targets) == 1 and isinstance(s.targets[0], ast.Name):
             if (isinstance(s.value, (ast.List, ast.Dict, ast.Set)) and not getattr(s.value, "elts", getattr(s.value, "keys", None))) or \
                     (isinstance(s.value, ast.Call) and isinstance(s.value.func, ast.Name) and s.value.func.id in ("list", "dict", "set")):
@@ -492,7 +496,7 @@ def _contains(s, node):
     return any(n is node for n in ast.walk(s))
 
 
-def env_at(body, node, env=None):
+def env_at(body, node, env=None, keep=()):
     """symbolic environment just before the simple statement (or compound header) that contains `node`, descending into loops/ifs/try:
     names written anywhere inside an enclosing compound statement are opaque at its entry and re-defined by the statements that
     precede `node` inside it."""
@@ -512,9 +516,9 @@ def env_at(body, node, env=None):
                     if isinstance(s, (ast.For, ast.While)):
                         for n in stored_names(s):
                             env.pop(n, None)
-                    return env_at(sub, node, env)
+                    return env_at(sub, node, env, keep)
             return env  # node is in the header / the simple statement itself
-        env = seq_env([s], env=env)
+        env = seq_env([s], env=env, keep=keep)
     return env
 
 
@@ -533,9 +537,9 @@ def fold(e):
     return _Fold().visit(e)
 
 
-def expr_at(fi, node, expr):
-    """`expr` evaluated symbolically at the program point of `node` inside fi"""
-    env = env_at(fi.node.body, node)
+def expr_at(fi, node, expr, keep=()):
+    """`expr` evaluated symbolically at the program point of `node` inside fi; names in `keep` stay symbolic"""
+    env = env_at(fi.node.body, node, keep=keep)
     return fold(_SubstEnv(env).visit(copy.deepcopy(expr)))
 
 
